@@ -165,6 +165,12 @@ def gen_cg(rng, name, enums, feats):
                 cr["options"] = {"at_least": rng.choice([1, 2]), "weight": rng.choice([1, 2, 4])}
             crosses.append(cr)
         variants.append({"cps": cps, "crosses": crosses})
+        if n_var > 1 and rng.random() < 0.65:
+            # remaining variants: small perturbations of the first one (same names, nearly the
+            # same bins) - the cases in which "same shape?" is hardest to decide
+            while len(variants) < n_var:
+                variants.append(perturb_variant(rng, variants[0], data))
+            break
     cg = {"name": name, "samples": samples, "variants": variants, "options": None}
     if feats.get("opts") and rng.random() < 0.3:
         cg["options"] = {"at_least": rng.choice([1, 2])}
@@ -192,3 +198,51 @@ def sample_values(rng, cgdef, enums, bias=None):
             lo, hi = dom(s)
             vals[s["n"]] = rng.randint(lo, hi)
     return vals
+
+
+def perturb_variant(rng, var, data):
+    import copy
+    v = copy.deepcopy(var)
+    by = {s["n"]: s for s in data}
+    for _ in range(rng.randint(1, 2)):
+        cp = rng.choice(v["cps"])
+        s = by.get(cp["target"].get("var") or cp["target"].get("fn"))
+        if s is None or "en" in s:
+            continue
+        lo, hi = dom(s)
+        r = rng.random()
+        if cp.get("bins") and r < 0.6:
+            spec = cp["bins"][rng.choice(sorted(cp["bins"]))]
+            k = rng.randrange(len(spec["items"]))
+            it = spec["items"][k]
+            taken = set(_vals([x for j, x in enumerate(spec["items"]) if j != k]))
+            if isinstance(it, list):
+                a, b = it
+                choice = rng.choice(["widen_hi", "widen_lo", "narrow", "shift"])
+                if choice == "widen_hi":
+                    b = min(hi, b + rng.randint(1, 2))
+                elif choice == "widen_lo":
+                    a = max(lo, a - rng.randint(1, 2))
+                elif choice == "narrow" and b - a >= 1:
+                    b = b - 1
+                else:
+                    a, b = min(hi, a + 1), min(hi, b + 1)
+                if a <= b and not (set(range(a, b + 1)) & taken):
+                    spec["items"][k] = [a, b] if a != b else a
+            else:
+                nv = max(lo, min(hi, it + rng.choice([-1, 1])))
+                if nv not in taken:
+                    spec["items"][k] = nv if rng.random() < 0.5 else ([min(it, nv), max(it, nv)] if it != nv else it)
+        elif cp.get("bins") and r < 0.8:
+            spec = cp["bins"][rng.choice(sorted(cp["bins"]))]
+            if spec["k"] == "array":
+                spec["n"] = rng.choice([None, 1, 2, 3])
+        elif not cp.get("bins"):
+            o = dict(cp.get("options") or {})
+            o["auto_bin_max"] = rng.choice([2, 3, 4, 8, 64])
+            cp["options"] = o
+        else:
+            o = dict(cp.get("options") or {})
+            o["at_least"] = rng.choice([1, 2])
+            cp["options"] = o
+    return v
